@@ -197,3 +197,52 @@ Proof.
     + destruct (rd_view (h_reader st c) cnt) as [| |[off sz] r']; cbn [fst h_curs]; try reflexivity. now apply nth_set_nth_other.
     + reflexivity.
 Qed.
+
+(* ------------------------------------------------- handoff of the writer's buffer, reset *)
+(* after the buffer was moved out the writer restarts at 0: the next message is exactly what is
+   written next (no stale prefix), the handed-off message is what had been written, and the size
+   seen by a WriteSizeCalculator restarted at the handoff is the buffer size *)
+Lemma handoff_restarts_writer st bs :
+  len bs < 2 ^ 64 ->
+  let st1 := fst (x_step st XHandoff) in
+  h_buf (x_h st1) = [] /\ x_msgs st1 = x_msgs st ++ [h_buf (x_h st)] /\ h_curs (x_h st1) = h_curs (x_h st) /\
+  let st2 := fst (x_step st1 (XH (HWrite (Some bs) (len bs)))) in
+  h_buf (x_h st2) = bs /\ x_msgs st2 = x_msgs st1 /\ len (h_buf (x_h st2)) = wrap (0 + len bs).
+Proof.
+  intro Hl. cbv zeta. cbn [x_step fst x_h x_msgs h_buf h_curs].
+  split; [reflexivity|]. split; [reflexivity|]. split; [reflexivity|].
+  pose proof (len_nonneg bs).
+  rewrite h_write_appends by (cbn [h_buf]; rewrite len_nil; lia). cbn [fst x_h x_msgs h_buf].
+  split; [reflexivity|]. split; [reflexivity|]. rewrite wrap_small by lia. reflexivity.
+Qed.
+
+(* messages that were handed off are never touched again *)
+Lemma handoff_messages_stable st op : exists tail, x_msgs (fst (x_step st op)) = x_msgs st ++ tail.
+Proof.
+  destruct op as [o | | |]; cbn [x_step].
+  - destruct (h_step (x_h st) o). exists []. now rewrite app_nil_r.
+  - eexists. reflexivity.
+  - exists []. now rewrite app_nil_r.
+  - exists []. now rewrite app_nil_r.
+Qed.
+
+(* a reader constructed on the writer's buffer before a handoff / reset is stale: it sees the
+   empty buffer - every non-empty read throws, end() is true, nothing is read out of bounds *)
+Lemma stale_reader_after_handoff st k c mem size op :
+  op = XHandoff \/ op = XReset ->
+  nth_error (h_curs (x_h st)) k = Some c -> 0 <= c -> 0 <= size -> (0 < size \/ 0 < c) ->
+  let st1 := fst (x_step st op) in
+  snd (x_step st1 (XH (HRead k mem size))) = HThrow /\ snd (x_step st1 (XH (HEnd k))) = HEndIs true.
+Proof.
+  intros Hop Hk Hc Hs Hpos. cbv zeta.
+  assert (E : x_h (fst (x_step st op)) = {| h_buf := []; h_curs := h_curs (x_h st) |}) by (destruct Hop as [-> | ->]; reflexivity).
+  cbn [x_step]. rewrite E. cbn [h_step h_curs]. rewrite Hk. split.
+  - unfold rd_read, rd_read_gen, rd_throws, h_reader. cbn [r_cur r_buf h_buf]. rewrite len_nil.
+    destruct ((c >? 0) || (size >? 0 - c)) eqn:T; [reflexivity | exfalso; lia].
+  - cbn [snd]. f_equal. unfold rd_end, h_reader. cbn [r_cur r_buf h_buf]. rewrite len_nil.
+    destruct (c >=? 0) eqn:T; [reflexivity | lia].
+Qed.
+
+(* self-assignment of the buffer changes nothing *)
+Lemma self_assign_identity st : x_step st XSelfAssign = (st, HOk).
+Proof. reflexivity. Qed.
